@@ -286,7 +286,7 @@ def check_insert(spec):
         res = [float(r) for r in res]
         if any(abs(a - b) > 1e-9 for a, b in zip(res, noisy_ref)):
             return bad("insert:executed-result", res, noisy_ref)
-        if strength == 0 and any(abs(a - b) > 1e-9 for a, b in zip(res, clean_ref)):
+        if strength == 0 and what != "qfunc" and any(abs(a - b) > 1e-9 for a, b in zip(res, clean_ref)):
             return bad("insert:zero-strength-differs-from-noiseless", res, clean_ref)
     return ok(outcome=[inserted, [i for i, w in enumerate(want) if w[0] in CHANNELS or w[0] == "PhaseShift"][:6]], nontrivial=inserted > 0)
 
